@@ -511,7 +511,9 @@ class HookHost(ReprMixin, LogMixin, metaclass=_HookHostMeta):
             if isinstance(v, weakref.ref):
                 t = v()
 
-                if id(t) in memo:
+                if t is None:
+                    new_v = v
+                elif id(t) in memo:
                     new_v = weakref.ref(memo[id(t)])
                 else:
                     new_t = copy.deepcopy(t, memo)
